@@ -102,3 +102,65 @@ def quiet_problem(cls, **kw):
     except OSError:
         pass
     return p
+
+
+# ------------------------------------------------------------------------------------------------
+# running artap's population algorithms under the random shim
+# ------------------------------------------------------------------------------------------------
+def std_objective(n_costs):
+    def f(v):
+        out = [sum((x - 0.25) ** 2 for x in v)]
+        if n_costs >= 2:
+            out.append(sum((x - 0.75) ** 2 for x in v) + 0.5 * v[0])
+        return out[:n_costs]
+    return f
+
+
+def algorithm_class(name):
+    if name == "NSGAII":
+        from artap.algorithm_NSGAII import NSGAII
+        return NSGAII
+    if name == "EpsMOEA":
+        from artap.algorithm_genetic import EpsMOEA
+        return EpsMOEA
+    from artap import algorithm_swarm as sw
+    return {"OMOPSO": sw.OMOPSO, "SMPSO": sw.SMPSO, "PSOGA": sw.PSOGA}[name]
+
+
+def run_algorithm(name, ctx, seed, N, G, n_params=1, n_costs=1, bounds=None, criteria=None, evaluator=None,
+                  shim_cfg=None, before=None, after=None, f=None, g=None, param_extra=None, prepare=None, store_path=None):
+    """One complete run() of a population algorithm on a fresh harness problem. Returns (problem, algorithm, exception)."""
+    from ..core import shim as shim_mod
+    reset_ids()
+    bounds = bounds or [[0.0, 1.0]] * n_params
+    criteria = criteria or ["minimize"] * n_costs
+    problem = make_problem(n_params=n_params, bounds=bounds, criteria=criteria, f=f or std_objective(n_costs), g=g,
+                           before=before, after=after, param_extra=param_extra)
+    if store_path is not None:
+        from artap.datastore import SqliteDataStore
+        problem.data_store = SqliteDataStore(problem, database_name=store_path)
+    cls = algorithm_class(name)
+    sh = shim_mod.install()
+    sh.reset(seed, ctx, **(shim_cfg or {}))
+    exc = None
+    alg = None
+    try:
+        if evaluator is not None and name in ("NSGAII", "EpsMOEA"):
+            alg = cls(problem, evaluator_type=evaluator)
+        else:
+            alg = cls(problem)
+        alg.options['max_population_number'] = G
+        alg.options['max_population_size'] = N
+        alg.options['verbose_level'] = 0
+        if prepare is not None:
+            prepare(problem, alg)
+        alg.run()
+    except BaseException as e:   # noqa
+        from ..core.common import HarnessError
+        from ..core.explorer import HorizonHit
+        if isinstance(e, (HarnessError, HorizonHit, KeyboardInterrupt)):
+            raise
+        exc = e
+    finally:
+        sh.ctx = None
+    return problem, alg, exc
